@@ -65,6 +65,12 @@ pub fn run(h: &H) {
     }
 }
 
+fn sample(h: &H, kind: &str, a: &str, b: &str) {
+    if h.want_sample() {
+        h.sample(J::obj().set("pair", kind).set("definition_a", a).set("definition_b", b));
+    }
+}
+
 fn report(h: &H, idx: u64, sig: &str, a: &str, b: &str, p: &[f64; 4], ra: &[f64; 4], rb: &[f64; 4], d: f64, tol: f64) {
     h.violation(
         idx,
@@ -99,6 +105,7 @@ fn case(h: &H, idx: u64, kind: u64, rng: &mut Rng) {
             let shifted = format!("{base} x_0={} y_0={}", num(x0), num(y0));
             let (Some(a), Some(b)) = (pr.op(&shifted), pr.op(&base)) else { return };
             h.class(&format!("x_0y_0/{projname}"));
+            sample(h, "x_0/y_0", &shifted, &base);
             h.distinct(hash_str(&shifted));
             for p in points(&inst, rng, npts) {
                 let (ra, _) = apply1(&pr.ctx, a, D::F, p);
@@ -148,6 +155,7 @@ fn case(h: &H, idx: u64, kind: u64, rng: &mut Rng) {
             let zero = with(&inst.def, key, "0");
             let (Some(a), Some(b)) = (pr.op(&moved), pr.op(&zero)) else { return };
             h.class(&format!("lon_0/{projname}"));
+            sample(h, "lon_0", &moved, &zero);
             h.distinct(hash_str(&moved));
             for p in points(&inst, rng, npts) {
                 let (ra, _) = apply1(&pr.ctx, a, D::F, p);
@@ -182,6 +190,7 @@ fn case(h: &H, idx: u64, kind: u64, rng: &mut Rng) {
             let unit = format!("{base} k_0=1");
             let (Some(a), Some(b)) = (pr.op(&scaled), pr.op(&unit)) else { return };
             h.class(&format!("k_0/{projname}"));
+            sample(h, "k_0", &scaled, &unit);
             h.distinct(hash_str(&scaled));
             for p in points(&inst, rng, npts) {
                 let (ra, _) = apply1(&pr.ctx, a, D::F, p);
